@@ -1,5 +1,6 @@
 import HkModel.Drive.Queue
 import HkModel.Drive.Dispatch
+import HkModel.Drive.Egress
 /-! `hkdriver <mode>`: reads protocol lines on stdin, answers one line per input line. -/
 open Hk
 
@@ -34,6 +35,7 @@ def main (args : List String) : IO UInt32 := do
     stdout.putStrLn (DriveQueue.summary ds)
     return 0
   | ["dispatch"] => runPure DriveDispatch.processLine
+  | ["egress"] => runPure DriveEgress.processLine
   | _ =>
     IO.eprintln "usage: hkdriver <mode>"
     return 2
